@@ -379,7 +379,9 @@ class LTChar(LTComponent, LTText):
         self.adv = textwidth * fontsize * scaling
         # compute the boundary rectangle.
         if font.is_vertical():
-            # vertical
+            # vertical: horizontal scaling does not change the vertical
+            # displacement of a glyph.
+            self.adv = textwidth * fontsize
             assert isinstance(textdisp, tuple)
             (vx, vy) = textdisp
             if vx is None:
